@@ -32,6 +32,9 @@ REQUIRED_REFS = {"tie_prev", "tie_next", "slur_starts", "slur_stops", "tuplet_st
 
 
 def run(ctx):
+    from ..rules import extra as _X4
+    _X4.rule_ids_over_all_notes(ctx)
+    _X4.rule_destinations_deduplicated(ctx)
     from ..rules import extra as _X3
     _X3.rule_jump_recorded_after_reset(ctx)
     prog = ctx.prog
